@@ -534,7 +534,8 @@ func run03(g *gen03, desc *thrift.TypeDescriptor, dfs []string, tb []byte, opts 
 		ConvertException:     opts&o3ConvertException != 0,
 	}
 	cv := t2j.NewBinaryConv(co)
-	ctx := context.Background()
+	// the options are also published under the documented context key (annotations may consult them)
+	ctx := context.WithValue(context.Background(), conv.CtxKeyConvOptions, co)
 	var br *base.BaseResp
 	if opts&o3BaseInCtx != 0 {
 		br = base.NewBaseResp()
